@@ -19,6 +19,7 @@ pub fn members(names: &[&str], args: &Args, ev: &mut Ev) -> Vec<wgen::Member> {
             "locals" => fam::locals_family(),
             "customs" => fam::customs_family(args.tier.g()),
             "names" => fam::names_family(args.tier.g()),
+            "reach" => fam::reach_family(args.tier.g()),
             other => {
                 ev.note(format!("unknown family {}", other));
                 vec![]
